@@ -348,6 +348,18 @@ impl Resolver<'_> {
                 let a = a.kind.into_tuple().unwrap();
                 let b = b.kind.into_tuple().unwrap();
 
+                // Zipping tuples of different lengths drops the tail. That is fine between known
+                // columns (compare on the shared prefix), but a wildcard stands for an unknown
+                // number of columns (a `flatten` field): pairing it with one named column would emit
+                // `x.a = y.*`.
+                let has_wildcard = |t: &[Expr]| t.iter().any(|e| e.flatten);
+                if a.len() != b.len() && (has_wildcard(&a) || has_wildcard(&b)) {
+                    return Err(Error::new_simple(
+                        "cannot match up the columns of these relations: one of them has unknown columns",
+                    )
+                    .push_hint("select the same columns on both sides"));
+                }
+
                 let mut res = Vec::new();
                 for (a, b) in std::iter::zip(a, b) {
                     res.push(Expr::new(ExprKind::Tuple(vec![a, b])));
